@@ -535,36 +535,14 @@ def i64MaxShownNull (c : Case) (r : Real) : Bool :=
       s != out && s.map (·.map fun v => if v == .int I64_MAX then .null else v) == out
   | _, _, _ => false
 
-/-- `null-column-nullable-filter-count` (C02/C03): a selected column that is entirely NULL in a partition (type Null) under a
-    WHERE that is nullable there yields one NULL row per partition row instead of one per passing row: the answer is
-    the reference plus extra rows consisting of NULL cells only. -/
-def nullColumnExtraRows (c : Case) (r : Real) : Bool :=
-  match c.kind, evalLogicalSel i2fNative { selQ c with limit := c.rows.length + 1, offset := 0 } c.rows, parseOut r.out with
-  | .sel, .ok s, some out =>
-      let parts := (splitRows r.split c.rows).filter (fun p => !p.isEmpty)
-      let trigger := (c.exprs.flatMap exprCols).any fun k => parts.any fun p =>
-        p.all (fun row => row.getD k .null == .null) &&
-          ((c.pred.map exprCols).getD []).any (fun w => p.any (fun row => row.getD w .null == .null))
-      trigger && c.limit.isNone && c.offset = 0 &&
-        (match msub out s with
-         | some rest => !rest.isEmpty && rest.all (fun row => row.all (· == .null))
-         | none => false)
-  | _, _, _ => false
-
-/-- trigger of `null-column-nullable-filter-count`: some column the query shows or orders by is NULL in every row of a partition
-    in which a WHERE column has a NULL (nullable filter): its NullVecLike replacement is sized by the filter's data bytes. -/
-def nullColumnNullableFilter (c : Case) (r : Real) : Bool :=
-  let parts := (splitRows r.split c.rows).filter (fun p => !p.isEmpty)
-  (c.exprs.flatMap exprCols ++ c.order.map (·.1)).any fun k => parts.any fun p =>
-    p.all (fun row => row.getD k .null == .null) &&
-      ((c.pred.map exprCols).getD []).any (fun w => p.any (fun row => row.getD w .null == .null))
+/-! (`null-column-nullable-filter-count` (C02/C03) — `nullable_filter` on a Null-typed input counted the filter's data bytes —
+    was repaired in /repo d5b38db; classifier removed, witness kept in the corpus.) -/
 
 def classifyOrdSel (c : Case) (r : Real) (_why : String) : String :=
   let c07 := classifyObs r.obs
   if c07 ≠ "" then c07
   else if whereNullPartition c r && (r.out = "err:fatal" || r.out = "err:canceled" || r.out = "panic") then "where-null-partition-empty"
   else if i64MaxShownNull c r then "select-i64max-null"
-  else if nullColumnExtraRows c r || (nullColumnNullableFilter c r && (r.out = "err:canceled" || r.out = "panic" || r.out = "err:fatal")) then "null-column-nullable-filter-count"
   else ""
 
 /-! ### one case -/
